@@ -964,14 +964,21 @@ func (d *bincDecDriver[T]) nextValueBytesBdReadR() {
 		clen = fnLen(d.vs)
 		d.r.skip(clen)
 	case bincVdSymbol:
+		var symbol uint16
 		if d.vs&0x8 == 0 {
-			d.r.readn1()
+			symbol = uint16(d.r.readn1())
 		} else {
-			d.r.skip(2)
+			symbol = uint16(bigen.Uint16(d.r.readn2()))
 		}
 		if d.vs&0x4 != 0 {
+			// a symbol defined inside a skipped value may be referenced by a later value:
+			// it must be entered in the table, exactly as DecodeStringAsBytes does.
 			clen = fnLen(d.vs & 0x3)
-			d.r.skip(clen)
+			bs, cond := d.r.readxb(clen)
+			if d.s == nil {
+				d.s = make(map[uint16][]byte, 16)
+			}
+			d.s[symbol] = d.d.detach2Bytes(bs, d.d.attachState(cond))
 		}
 	case bincVdTimestamp:
 		d.r.skip(uint(d.vs))
